@@ -115,13 +115,13 @@ def impl(case):
         if fn == "knn":
             es, ns, data, k, red, qe, qn, shape2d = a
             g = vd.KNeighbors(k=k, reduction=REDS[red]).fit((np.array(es), np.array(ns)), np.array(data))
-            r = g.predict((np.array(qe).reshape(shape2d), np.array(qn).reshape(shape2d)))
+            r = g.predict((C.mkarr(qe, shape2d, case["op"]), C.mkarr(qn, shape2d, case["op"])))
             if list(r.shape) != list(shape2d):
                 raise RuntimeError("wrong output shape")
             return r.ravel().tolist()
         if fn == "md":
             es, ns, k, shape2d = a
-            r = vd.median_distance((np.array(es).reshape(shape2d), np.array(ns).reshape(shape2d)), k_nearest=k)
+            r = vd.median_distance((C.mkarr(es, shape2d, case["op"]), C.mkarr(ns, shape2d, case["op"])), k_nearest=k)
             if list(r.shape) != list(shape2d):
                 raise RuntimeError("wrong output shape")
             return r.ravel().tolist()
@@ -129,7 +129,7 @@ def impl(case):
             es, ns, maxdist, qe, qn, shape2d, proj, grid = a
             f = None if proj is None else PROJS[proj[0]](proj[1])
             dc = (np.array(es), np.array(ns))
-            arr = vd.distance_mask(dc, maxdist, coordinates=(np.array(qe).reshape(shape2d), np.array(qn).reshape(shape2d)), projection=f)
+            arr = vd.distance_mask(dc, maxdist, coordinates=(C.mkarr(qe, shape2d, case["op"]), C.mkarr(qn, shape2d, case["op"])), projection=f)
             if list(arr.shape) != list(shape2d) or arr.dtype != bool:
                 raise RuntimeError("wrong output shape/dtype")
             if grid is not None:
